@@ -80,6 +80,12 @@ UNITS = {
                  "            #[cfg(kani)]\n            verif_write::at_copy(self, 1);\n",
                  why="ghost probe: stored generation just after the record copy", probe_group="write_probes"),
         ],
+        "probe_alt": {"write_probes": [
+            Edit("clock-bound-shm/src/writer.rs", r"self\.ceb\.write\(\s*\*\s*[a-z_][a-z0-9_]*\s*\);", "regex",
+                 "#[cfg(kani)]\n            verif_write::at_copy(self, 0);\n            \\g<0>\n            #[cfg(kani)]\n            verif_write::at_copy(self, 1);",
+                 why="ghost probes: stored generation just before / after the record copy (pattern anchor: the copy statement whatever the parameter is called)",
+                 count=1),
+        ]},
         "probe_guards": {"write_probes": ["C11.write.gen_odd_before_copy", "C11.write.gen_odd_after_copy", "C11.write.copy_probes_reached",
                                           "C11.write.gen_stable_during_copy", "C11.write.odd_value_adopted_or_incremented"]},
     },
@@ -102,6 +108,22 @@ UNITS = {
                  why="retry budget: unchanged (1 000 000) unless the adversarial harness is running, then 3 (bounded stand-in for C18)",
                  probe_group="read_probes"),
         ],
+        # used when a statement anchor above is lost (locals renamed, loop restructured): anchor on the
+        # shared-memory access expressions themselves, wherever they stand inside `snapshot`
+        "probe_alt": {"read_probes": [
+            Edit("clock-bound-shm/src/reader.rs", r"\b[A-Za-z_][A-Za-z0-9_]*\.load\(\s*atomic::Ordering::Acquire\s*\)", "regex",
+                 "{\n            #[cfg(kani)]\n            verif_read::environment_step();\n            \\g<0>\n        }",
+                 why="environment step before every atomic load of the shared segment inside snapshot", scope_fn="snapshot"),
+            Edit("clock-bound-shm/src/reader.rs", r"self\.ceb_shm\.read_volatile\(\)", "regex",
+                 "{\n                #[cfg(kani)]\n                {\n                    verif_read::environment_step();\n                    verif_read::at_record_read();\n                }\n"
+                 "                self.ceb_shm.read_volatile()\n            }",
+                 why="environment step + ghost counter before every record copy inside snapshot", scope_fn="snapshot"),
+            Edit("clock-bound-shm/src/reader.rs", r"\b1_000_000\b", "regex", "verif_budget!(1_000_000)", count=1,
+                 why="retry budget: unchanged (1 000 000) outside Kani, 3 under Kani (bounded stand-in for C18; the other harnesses never need more than two iterations)"),
+            Edit("clock-bound-shm/src/reader.rs", r"\A", "regex",
+                 "#[cfg(kani)]\nmacro_rules! verif_budget { ($x:expr) => { 3 }; }\n#[cfg(not(kani))]\nmacro_rules! verif_budget { ($x:expr) => { $x }; }\n",
+                 count=1, why="the budget macro used by the rewrite above"),
+        ]},
         "probe_guards": {"read_probes": ["C03.one_update.never_an_error", "C03.one_update.returns_one_whole_publication_with_its_generation",
                                          "C03.one_update.switch_before_the_first_generation_load_is_caught_up", "C03.one_update.needs_at_most_two_iterations",
                                          "C18.snapshot.one_read_when_quiescent", "C18.snapshot.early_return_without_reading",
@@ -236,6 +258,11 @@ pub(crate) fn writer_for_harness(base: *mut u8) -> ShmWriter {
         "crate": "clock-bound-d", "features": None,
         "files": [("clock-bound-d/src/verif_search_phc.rs", "harness/clock-bound-d/verif_search_phc.rs")],
         "edits": [child_mod_cfg("clock-bound-d/src/chrony_poller.rs", "verif_search_phc", "verif_search")],
+    },
+    "d_poller_search": {
+        "crate": "clock-bound-d", "features": None,
+        "files": [("clock-bound-d/src/verif_search_poller.rs", "harness/clock-bound-d/verif_search_poller.rs")],
+        "edits": [child_mod_cfg("clock-bound-d/src/chrony_poller.rs", "verif_search_poller", "verif_search")],
     },
     "d_restart_search": {
         "crate": "clock-bound-d", "features": None,
@@ -426,7 +453,19 @@ RESTART_NATIVE = {"kind": "native", "crate": "clock-bound-d", "units": ["d_resta
                   "obligations": ["C09.restart.no_trust_before_first_sync_of_the_new_incarnation"]}
 
 DGRP = {"kind": "kani", "crate": "clock-bound-d", "units": ["shm_pub", "d_nolog", "d_updater"], "modpath": "shm_writer::verif_updater"}
-PGRP = {"kind": "kani", "crate": "clock-bound-d", "units": ["d_nolog", "d_poller"], "modpath": "chrony_poller::verif_poller"}
+POLLER_PAIR = {"kind": "search", "crate": "clock-bound-d", "units": ["d_poller_search"], "features": None, "test": "verif_search_poller"}
+POLLER_BOUND = ("the real loop on the real monotonic clock, real channels and a real PHC file, one iteration per scenario: 6 reply scripts over up to two queries "
+                "(answered / silent / answered after 300 ms) x 4 grace answers (before / after the query) x 6 PHC configurations; 3 two-poll scenarios with the PHC value changing")
+POLLER_NATIVE_C12 = dict(POLLER_PAIR, kind="native", bound=POLLER_BOUND,
+                         obligations=["C12.poller.as_of_is_a_monotonic_clock_reading", "C12.poller.as_of_read_before_the_query_it_stamps"])
+POLLER_NATIVE_C13 = dict(POLLER_PAIR, kind="native", bound=POLLER_BOUND,
+                         obligations=["C13.select.no_panic", "C13.select.one_message_per_poll", "C13.select.silence_is_grace_then_unknown_class",
+                                      "C13.select.grace_judged_after_the_query_returned", "C13.select.phc_bound_attached_exactly",
+                                      "C13.select.report_with_phc_bound_is_data", "C13.select.phc_failure_is_not_a_measurement",
+                                      "C13.select.phc_term_zero_when_not_the_reference", "C13.select.report_without_phc_is_data",
+                                      "C13.select.report_forwarded_unchanged", "C13.two_polls.one_message_per_poll",
+                                      "C13.two_polls.each_report_carries_the_phc_bound_read_in_that_poll"])
+PGRP = {"kind": "kani", "crate": "clock-bound-d", "units": ["d_nolog", "d_poller"], "modpath": "chrony_poller::verif_poller", "pair": POLLER_PAIR}
 POL = "harness/clock-bound-d/verif_poller.rs"
 UPD_FUNCS = ["clock_bound_d::shm_writer::ShmUpdater::{new, write_clock_error_bound, process_clock_update, process_missing_clock_update}",
              "clock_bound_d::shm_writer::clock_state_fsm::{ShmClockState::default, FSMState::apply_chrony, FSMState::value, FSMTransition::transition x3}"]
@@ -627,6 +666,7 @@ PROPS = {
             CLOCK_GRP,
             dict(PGRP, harnesses=[{"name": "c13_poller_iteration", "file": POL, "replayable": False, "tier": "quick", "timeout": 900,
                                    "only": r"C12\.poller\..*"}]),
+            POLLER_NATIVE_C12,
             {"kind": "verus", "gen": "compute", "obligations": [r"C05\.lemma\.monotone", r"C05\.compute\.exact"], "rlimit": 30, "float_dependent": FLOAT_DEP,
              "float_shape_clause": "C05.compute.exact", "float_dependent_if_shape_lost": ["C05.compute.ordered", "C14.compute.no_panic"], "pair": COMPUTE_SEARCH},
         ],
@@ -646,7 +686,7 @@ PROPS = {
                                          for n in ("c13_poller_iteration", "c13_second_poll_does_not_depend_on_the_first", "c13_grace_period_law",
                                                    "c13_starts_outside_grace", "c13_get_tracking_stamps_only_good_answers")]),
                    dict(DGRP, harnesses=[dh("c13_refid_to_u32_packs_ascii_big_endian")]),
-                   PHC_NATIVE],
+                   PHC_NATIVE, POLLER_NATIVE_C13],
     },
     "C17": {
         "functions": ["#[repr(C)] clock_bound_shm::{ShmHeader, ClockErrorBound, ClockStatus}", "clock_bound_shm::writer::ShmWriter::segment_size",
